@@ -192,6 +192,8 @@ struct Config
     };
     std::array<Slot, 8> vec;
     std::array<std::unique_ptr<Element>, 8> elems;
+    std::array<Vals, 8> eoracle;
+    std::array<bool, 8> eoracle_valid{};
     std::ostream& out = std::cout;
 
     // ---------------------------------------------------------------- tables
@@ -397,6 +399,65 @@ struct Config
                         break;
                     }
         }
+        out << os.str() << "\n";
+    }
+
+    // values left behind by a move: tracked objects read 0 afterwards, trivially movable ones keep their value
+    template <std::size_t I>
+    static void moved_from(Vals& vals)
+    {
+        if constexpr (I < N)
+        {
+            using T = typename std::tuple_element_t<I, Params>::type;
+            if constexpr (!std::is_trivially_move_assignable_v<T>)
+                for (auto& x : vals[I]) x = 0;
+            moved_from<I + 1>(vals);
+        }
+    }
+
+    // values left behind by move construction
+    template <std::size_t I>
+    static void moved_ctor(Vals& vals)
+    {
+        if constexpr (I < N)
+        {
+            using T = typename std::tuple_element_t<I, Params>::type;
+            if constexpr (!std::is_trivially_move_constructible_v<T>)
+                for (auto& x : vals[I]) x = 0;
+            moved_ctor<I + 1>(vals);
+        }
+    }
+
+    void dump_elem(int k)
+    {
+        std::ostringstream os;
+        os << "e" << k;
+        if (!elems[k])
+        {
+            out << os.str() << " none\n";
+            return;
+        }
+        Element& e = *elems[k];
+        auto* base = reinterpret_cast<const std::byte*>(e.memory_.get());
+        os << " units=" << e.memory_.size() << " blk=" << blk_of(base) << " alloc=" << e.get_allocator().id;
+        if (!base)
+        {
+            out << os.str() << "\n";
+            return;
+        }
+        auto* blk = hv::Ledger::get().find(base);
+        const std::size_t block_bytes = blk ? blk->bytes : 0;
+        if (blk && !blk->live) violation("C07:element-uses-freed-block e" + std::to_string(k));
+        if (blk && blk->alloc_id != e.get_allocator().id && !AllocT::is_always_equal::value)
+            violation("C08:element-block-owned-by-unequal-allocator e" + std::to_string(k));
+        if (reinterpret_cast<std::uintptr_t>(base) % S != 0) violation("harness:block-not-storage-aligned");
+        std::uintptr_t prev_end = reinterpret_cast<std::uintptr_t>(base);
+        Vals got;
+        cntgs::BasicContiguousReference<true, typename ToCntgs<Pm>::type...> r{e};
+        if (reinterpret_cast<const std::byte*>(r.data_begin()) != base) violation("C04:element-data_begin-is-not-block-begin e" + std::to_string(k));
+        os << " |";
+        dump_ref(os, r, base, block_bytes, prev_end, got, "e" + std::to_string(k), std::make_index_sequence<N>{});
+        if (eoracle_valid[k] && got != eoracle[k]) violation("C12:element-value-differs e" + std::to_string(k));
         out << os.str() << "\n";
     }
 
@@ -618,6 +679,252 @@ struct Config
             const bool ab = x < y, bc = y < z, ac = x < z;
             out << "transv ab=" << ab << " bc=" << bc << " ac=" << ac << "\n";
             if (ab && bc && !ac) violation("C14:vector-lt-not-transitive");
+        }
+        else if (op == "refassign" || op == "refassignc" || op == "refmove")
+        {  // refassign vS j vT i : vT[i] = vS[j]   (copy from reference / const_reference, or move from an rvalue reference)
+            int sidx = vidx(t[1]), d = vidx(t[3]);
+            std::size_t j = std::stoull(t[2]), i = std::stoull(t[4]);
+            Vector& src = *vec[sidx].v;
+            Vector& dst = *vec[d].v;
+            if (op == "refassign")
+            {
+                auto r = src[j];
+                dst[i] = r;
+            }
+            else if (op == "refassignc")
+            {
+                dst[i] = std::as_const(src)[j];
+            }
+            else
+            {
+                dst[i] = src[j];  // prvalue mutable reference: move assignment
+            }
+            Vals moved = vec[sidx].oracle[j];
+            vec[d].oracle[i] = vec[sidx].oracle[j];
+            if (op == "refmove" && !(sidx == d && i == j))
+            {
+                moved_from<0>(moved);
+                vec[sidx].oracle[j] = moved;
+            }
+            dump(sidx);
+            if (sidx != d) dump(d);
+        }
+        else if (op == "refswap" || op == "iterswap")
+        {  // refswap vA i vB j
+            int a = vidx(t[1]), b = vidx(t[3]);
+            std::size_t i = std::stoull(t[2]), j = std::stoull(t[4]);
+            Vector& x = *vec[a].v;
+            Vector& y = *vec[b].v;
+            if (op == "refswap")
+            {
+                using std::swap;
+                swap(x[i], y[j]);
+            }
+            else
+            {
+                std::iter_swap(x.begin() + static_cast<std::ptrdiff_t>(i), y.begin() + static_cast<std::ptrdiff_t>(j));
+            }
+            Vals tmp = vec[a].oracle[i];
+            vec[a].oracle[i] = vec[b].oracle[j];
+            vec[b].oracle[j] = tmp;
+            dump(a);
+            if (a != b) dump(b);
+        }
+        else if (op == "rotate" || op == "reverse")
+        {  // rotate vA k : std::rotate(begin, begin + k, end)
+            int a = vidx(t[1]);
+            Vector& x = *vec[a].v;
+            if (op == "rotate")
+            {
+                auto k = static_cast<std::ptrdiff_t>(std::stoull(t[2]));
+                std::rotate(x.begin(), x.begin() + k, x.end());
+                std::rotate(vec[a].oracle.begin(), vec[a].oracle.begin() + k, vec[a].oracle.end());
+            }
+            else
+            {
+                std::reverse(x.begin(), x.end());
+                std::reverse(vec[a].oracle.begin(), vec[a].oracle.end());
+            }
+            dump(a);
+        }
+        else if (op == "swapranges")
+        {  // swapranges vA vB n
+            int a = vidx(t[1]), b = vidx(t[2]);
+            auto n = static_cast<std::ptrdiff_t>(std::stoull(t[3]));
+            Vector& x = *vec[a].v;
+            Vector& y = *vec[b].v;
+            std::swap_ranges(x.begin(), x.begin() + n, y.begin());
+            std::swap_ranges(vec[a].oracle.begin(), vec[a].oracle.begin() + n, vec[b].oracle.begin());
+            dump(a);
+            dump(b);
+        }
+        else if (op == "iter")
+        {  // iterator arithmetic and comparison laws over all index pairs of one vector; access paths agree
+            int a = vidx(t[1]);
+            Vector& x = *vec[a].v;
+            const Vector& cx = x;
+            const auto n = static_cast<std::ptrdiff_t>(x.size());
+            long checked = 0;
+            for (std::ptrdiff_t i = 0; i <= n; ++i)
+                for (std::ptrdiff_t j = 0; j <= n; ++j)
+                {
+                    auto bi = x.begin() + i;
+                    auto bj = x.begin() + j;
+                    typename Vector::const_iterator ci = bi;  // converting constructor
+                    ++checked;
+                    if ((bi - bj) != i - j) violation("C11:iterator-difference");
+                    if ((bi == bj) != (i == j) || (bi != bj) != (i != j)) violation("C11:iterator-equality");
+                    if ((bi < bj) != (i < j) || (bi > bj) != (i > j) || (bi <= bj) != (i <= j) || (bi >= bj) != (i >= j)) violation("C11:iterator-order");
+                    if ((bj + (i - j)) != bi || (bi - (i - j)) != bj) violation("C11:iterator-add-sub");
+                    auto k = bj;
+                    k += (i - j);
+                    if (k != bi) violation("C11:iterator-plus-assign");
+                    k -= (i - j);
+                    if (k != bj) violation("C11:iterator-minus-assign");
+                    if (ci.index() != bi.index() || (ci - cx.begin()) != i) violation("C11:const-iterator-conversion");
+                    if (i < n)
+                    {
+                        auto inc = bi;
+                        ++inc;
+                        auto post = bi;
+                        auto old = post++;
+                        if (inc != bi + 1 || post != inc || old != bi) violation("C11:iterator-increment");
+                        --inc;
+                        if (inc != bi) violation("C11:iterator-decrement");
+                    }
+                    if (i < n && j < n)
+                    {
+                        // it[n], *it, v[i], front/back denote the same stored objects
+                        auto r1 = x[static_cast<std::size_t>(i)];
+                        auto r2 = *bi;
+                        auto r3 = bj[i - j];
+                        auto c1 = cx[static_cast<std::size_t>(i)];
+                        if (r1.data_begin() != r2.data_begin() || r1.data_begin() != r3.data_begin() || c1.data_begin() != r1.data_begin() ||
+                            r1.data_end() != r2.data_end())
+                            violation("C11:access-paths-denote-different-objects");
+                        if (i == 0 && x.front().data_begin() != r1.data_begin()) violation("C11:front-differs");
+                        if (i == n - 1 && x.back().data_begin() != r1.data_begin()) violation("C11:back-differs");
+                        if (bi->data_begin() != r1.data_begin()) violation("C11:arrow-differs");
+                    }
+                }
+            if (x.end() - x.begin() != n || cx.cend() - cx.cbegin() != n) violation("C11:end-minus-begin");
+            out << "iter n=" << n << " pairs=" << checked << "\n";
+            return;
+        }
+        else if (op == "elem" || op == "elemref" || op == "elemmv")
+        {  // elem eK vS i alloc : element from const_reference (copy) / lvalue reference (copy) / rvalue reference (move)
+            int k = vidx(t[1]), sidx = vidx(t[2]);
+            std::size_t i = std::stoull(t[3]);
+            typename Element::allocator_type alloc{AllocT(std::atoi(t[4].c_str()))};
+            Vector& src = *vec[sidx].v;
+            elems[k].reset();
+            if (op == "elem")
+                elems[k] = std::make_unique<Element>(std::as_const(src)[i], alloc);
+            else if (op == "elemref")
+            {
+                auto r = src[i];
+                elems[k] = std::make_unique<Element>(r, alloc);
+            }
+            else
+                elems[k] = std::make_unique<Element>(src[i], alloc);
+            eoracle[k] = vec[sidx].oracle[i];
+            eoracle_valid[k] = vec[sidx].oracle_valid;
+            if (op == "elemmv")
+            {
+                Vals m = vec[sidx].oracle[i];
+                moved_ctor<0>(m);
+                vec[sidx].oracle[i] = m;
+            }
+            dump_elem(k);
+            dump(sidx);
+        }
+        else if (op == "elemcopy" || op == "elemmove")
+        {  // elemcopy eS eD : eD constructed from eS
+            int a = vidx(t[1]), b = vidx(t[2]);
+            elems[b].reset();
+            if (op == "elemcopy")
+                elems[b] = std::make_unique<Element>(std::as_const(*elems[a]));
+            else
+                elems[b] = std::make_unique<Element>(std::move(*elems[a]));
+            eoracle[b] = eoracle[a];
+            eoracle_valid[b] = eoracle_valid[a];
+            dump_elem(a);
+            dump_elem(b);
+        }
+        else if (op == "elemassign" || op == "elemmassign")
+        {  // elemassign eS eD : eD = eS
+            int a = vidx(t[1]), b = vidx(t[2]);
+            const bool steals = AllocT::is_always_equal::value || AllocT::propagate_on_container_move_assignment::value ||
+                                elems[b]->get_allocator() == elems[a]->get_allocator();
+            if (op == "elemassign")
+                *elems[b] = std::as_const(*elems[a]);
+            else
+                *elems[b] = std::move(*elems[a]);
+            if (a != b)
+            {
+                eoracle[b] = eoracle[a];
+                eoracle_valid[b] = eoracle_valid[a];
+                if (op == "elemmassign" && !steals)
+                {
+                    if constexpr (FIXED_LOCATOR)
+                        moved_from<0>(eoracle[a]);
+                    else
+                        moved_ctor<0>(eoracle[a]);
+                }
+            }
+            dump_elem(a);
+            if (a != b) dump_elem(b);
+        }
+        else if (op == "elemswap")
+        {
+            int a = vidx(t[1]), b = vidx(t[2]);
+            using std::swap;
+            swap(*elems[a], *elems[b]);
+            if (a != b)
+            {
+                std::swap(eoracle[a], eoracle[b]);
+                bool tmp = eoracle_valid[a];
+                eoracle_valid[a] = eoracle_valid[b];
+                eoracle_valid[b] = tmp;
+            }
+            dump_elem(a);
+            if (a != b) dump_elem(b);
+        }
+        else if (op == "elemtoref" || op == "elemtorefm")
+        {  // elemtoref eK vT i : vT[i] = eK
+            int k = vidx(t[1]), d = vidx(t[2]);
+            std::size_t i = std::stoull(t[3]);
+            if (op == "elemtoref")
+                (*vec[d].v)[i] = std::as_const(*elems[k]);
+            else
+                (*vec[d].v)[i] = std::move(*elems[k]);
+            vec[d].oracle[i] = eoracle[k];
+            if (op == "elemtorefm") moved_from<0>(eoracle[k]);
+            dump_elem(k);
+            dump(d);
+        }
+        else if (op == "elemfromref" || op == "elemfromrefm")
+        {  // elemfromref eK vS i : eK = vS[i] (assignment, equal field sizes)
+            int k = vidx(t[1]), sidx = vidx(t[2]);
+            std::size_t i = std::stoull(t[3]);
+            if (op == "elemfromref")
+                *elems[k] = std::as_const(*vec[sidx].v)[i];
+            else
+                *elems[k] = (*vec[sidx].v)[i];
+            eoracle[k] = vec[sidx].oracle[i];
+            if (op == "elemfromrefm") moved_from<0>(vec[sidx].oracle[i]);
+            dump_elem(k);
+            dump(sidx);
+        }
+        else if (op == "elemdump")
+        {
+            dump_elem(vidx(t[1]));
+        }
+        else if (op == "elemdestroy")
+        {
+            int k = vidx(t[1]);
+            elems[k].reset();
+            out << "e" << k << " none\n";
         }
         else if (op == "destroy")
         {
